@@ -485,7 +485,7 @@ int param_cmp(param * param_one, param * param_two, bool const_cmp)
     else if (param_one->type == PARAM_FUNC && param_two->type == PARAM_FUNC)
     {
         return func_cmp(param_one->func.params, param_one->func.ret,
-                        param_two->func.params, param_one->func.ret, const_cmp);
+                        param_two->func.params, param_two->func.ret, const_cmp);
     }
     else if (param_one->type == PARAM_TOUPLE && param_two->type == PARAM_TOUPLE)
     {
